@@ -639,7 +639,22 @@ struct ShardState {
     last_activity: Instant,
     done: bool,
     killed_for_hang: bool,
+    /// Set when the worker has been silent for the idle limit: (its CPU time then, when).
+    hang_checkpoint: Option<(f64, Instant)>,
     restarts: u32,
+}
+
+/// CPU time (user + system, seconds) a process has used so far.
+fn proc_cpu_seconds(pid: u32) -> Option<f64> {
+    let stat = std::fs::read_to_string(format!("/proc/{pid}/stat")).ok()?;
+    let rest = stat.rsplit_once(')')?.1;
+    let fields: Vec<&str> = rest.split_whitespace().collect();
+    // `rest` starts at field 3 (state); utime and stime are fields 14 and 15.
+    let utime: f64 = fields.get(11)?.parse().ok()?;
+    let stime: f64 = fields.get(12)?.parse().ok()?;
+    // SAFETY: plain libc query.
+    let hz = unsafe { libc::sysconf(libc::_SC_CLK_TCK) } as f64;
+    Some((utime + stime) / hz.max(1.0))
 }
 
 /// Scratch files of this run's workers live under one directory that the parent removes at the
@@ -678,6 +693,7 @@ pub fn parent_main(def: &CheckDef, tier: Tier, seed: u64) -> i32 {
             last_activity: Instant::now(),
             done: false,
             killed_for_hang: false,
+            hang_checkpoint: None,
             restarts: 0,
         })
         .collect();
@@ -700,6 +716,7 @@ pub fn parent_main(def: &CheckDef, tier: Tier, seed: u64) -> i32 {
             Ok(ev) => {
                 let st = &mut shards[ev.shard as usize];
                 st.last_activity = Instant::now();
+                st.hang_checkpoint = None;
                 match ev.kind {
                     EventKind::Line(v) => match v["t"].as_str() {
                         Some("case") => st.last_case = Some(v),
@@ -780,8 +797,22 @@ pub fn parent_main(def: &CheckDef, tier: Tier, seed: u64) -> i32 {
         }
         for st in &mut shards {
             if !st.done && st.child.is_some() && now.duration_since(st.last_activity) > idle_limit && !st.killed_for_hang {
-                st.killed_for_hang = true;
-                if let Some(c) = &st.child {
+                // Silent for the idle limit. On a busy machine that may be starvation rather
+                // than a hang: from here on the worker is given the same amount again, measured
+                // in its own CPU time (with a wall-clock cap), before it is killed.
+                let Some(c) = &st.child else { continue };
+                let cpu = proc_cpu_seconds(c.lock().unwrap().id());
+                let kill = match (st.hang_checkpoint, cpu) {
+                    (None, Some(cpu)) => {
+                        st.hang_checkpoint = Some((cpu, now));
+                        false
+                    }
+                    (Some((cpu0, t)), Some(cpu)) => cpu - cpu0 >= 0.8 * idle_limit.as_secs_f64() || now.duration_since(t) > idle_limit * 10,
+                    (_, None) => true,
+                };
+                if kill {
+                    st.killed_for_hang = true;
+                    st.hang_checkpoint = None;
                     let _ = c.lock().unwrap().kill();
                 }
             }
